@@ -137,7 +137,76 @@ def check_case(case):
         slots = [i for i, s in enumerate(l.samples) if s is not None]
         if slots != sorted(want["payload"]["samples"].keys()):
             vs.append(C.viol("slot-indices-moved", dict(key, ctx=ctx), {"slots": slots}, case))
+    # second generation: the object has been saved several times by now; IN-PLACE edits of each sub-structure
+    # must still reach the next file (a cached serialisation of the effect / a sample / an envelope would not)
+    try:
+        if mod.effect is not None:
+            em = mod.effect.module
+            for n_, c_ in em.controllers.items():
+                t_ = c_.instance_value_type(em)
+                if hasattr(t_, "max"):
+                    setattr(em, n_, t_.min if getattr(em, n_) != t_.min else t_.max)
+                    break
+        for smp in mod.samples:
+            if smp is not None:
+                smp.volume = (smp.volume + 7) % 65
+                smp.data = smp.data + b"\x01\x02"
+                break
+        mod.volume_envelope.points.append((0x300, 0x2000))
+        mod.pitch_envelope.loop = not mod.pitch_envelope.loop
+        keys = list(mod.note_samples.keys())
+        mod.note_samples[keys[5]] = (mod.note_samples[keys[5]] + 1) % 128
+        mod.vibrato_depth = (mod.vibrato_depth + 1) % 256
+        if mod.parent is not None:
+            mod.parent.modules[mod.index] = None
+            mod.parent = None
+            mod.index = None
+        want2 = expected_snapshot(mod)
+        got2 = S.module(C.load_bytes(C.save(rv.Synth(mod))).module, in_project=False)
+        d = S.diff(want2, got2)
+        if d:
+            vs.append(C.viol("edit-after-save-not-written", dict(key, path=C.first_diff_key(d)), {"diff": S.diff_text(d)}, case))
+    except Exception as e:
+        vs.append(C.viol("second-generation-raises", dict(key, exc=type(e).__name__), {"error": repr(e)[:200]}, case))
     return vs, b
+
+
+def poisoned_saves():
+    import rv.api as rv
+
+    def make():
+        m = rv.m.Sampler()
+        apply_spec(m, [{"k": "sample", "i": 0, "data": "all256"}, {"k": "sample", "i": 3, "data": "frame", "fields": {"volume": 9}},
+                       {"k": "effect", "type": "Reverb"}, {"k": "map", "entries": [[2, 3]]}])
+        return rv.Synth(m)
+
+    def setter(path, attr, bad):
+        def poison(o):
+            tgt = path(o)
+            old = getattr(tgt, attr)
+            setattr(tgt, attr, bad)
+            return (old,)
+
+        def heal(o, token):
+            setattr(path(o), attr, token[0])
+        return poison, heal
+
+    poisons = []
+    for name, path, attr, bad in (
+        ("sample0.name", lambda o: o.module.samples[0], "name", "not-bytes"),
+        ("sample3.name", lambda o: o.module.samples[3], "name", "not-bytes"),
+        ("sample0.volume", lambda o: o.module.samples[0], "volume", 300),
+        ("sample3.panning", lambda o: o.module.samples[3], "panning", 999),
+        ("sample3.data", lambda o: o.module.samples[3], "data", "not-bytes"),
+        ("volume_envelope.gain_pct", lambda o: o.module.volume_envelope, "gain_pct", 999),
+        ("pitch_envelope.points", lambda o: o.module.pitch_envelope, "points", [(0, 0), (1, 10**9)]),
+        ("effect.module.color", lambda o: o.module.effect.module, "color", (300, 0, 0)),
+        ("editor_cursor", lambda o: o.module, "editor_cursor", 2**40),
+        ("module.color", lambda o: o.module, "color", (300, 0, 0)),
+    ):
+        po, he = setter(path, attr, bad)
+        poisons.append((name, po, he))
+    return C.poisoned_save_cycle(make, poisons, {"what": "poisoned-save"}, {"poisoned": True})
 
 
 # ----------------------------------------------------------------------------- enumeration
@@ -295,6 +364,8 @@ def _legacy_run(variants, rec):
 
 
 def run_case(case):
+    if case.get("poisoned"):
+        return poisoned_saves()[1]
     if "legacy" in case:
         return [v for v in legacy_checks()[1] if v["case"] == case]
     return check_case(case)[0]
@@ -304,8 +375,10 @@ def _task(t):
     r = C.new_result()
     if t[0] == "legacy":
         n, vs = legacy_checks()
-        r["evals"] = n
-        r["violations"] = vs
+        n2, vs2 = poisoned_saves()
+        r["evals"] = n + n2
+        C.count(r, "poisoned_saves", n2)
+        r["violations"] = vs + vs2
         return r
     for case in t[1]:
         vs, b = check_case(case)
